@@ -549,7 +549,7 @@ def c17(tier):
 def c19(tier):
     return modee.enum_check(
         "C19", tier, ["c19_launch"],
-        "cases: job specifications = commands of <=2 (quick) / <=3 (thorough) tokens over a 12-token quoting/special-character alphabet with blank and blank-tab-blank separators, "
+        "cases: job specifications = commands of <=3 tokens over a 23-token quoting/special-character alphabet (quotes, escapes, $VAR, braces, globs, shell operators, non-ASCII) with blank and blank-tab-blank separators (3-token commands: blank only in quick), "
         "cycled over the 4 append_* combinations and exit codes; all exit codes 0-255; 7 job-name shapes x 4 append_* combinations; the bare command. Each is executed by the real JobRunner/AsyncCliCommand with a REAL child process "
         "(compiled probe that reports argv/env and exits with the requested code); argv is compared with shlex.split + documented suffixes, env, own stdout/stderr files, and the row read back through ResultsAggregator (name, exit code, hpc_job_id). "
         "evaluations counts job specifications (run in batches of 24)",
